@@ -92,6 +92,20 @@ struct Cursor {
 
 /// Executes one program; `prog` gives the operations and their (clamped) targets.
 /// `avoid_bitset`: steer around the recorded finding "BitSetDocSet::advance after a seek past the end".
+/// `--unsteer f29,f31` switches the steering around the named recorded findings off (to test a repair)
+fn steer(a: &Args, schema: &Schema, q: &Value) -> Avoid {
+    let on = !a.flag("no-avoid");
+    let un = a.get("unsteer", "").to_lowercase();
+    let keep = |f: &str| on && !un.split(',').any(|x| x.trim() == f);
+    Avoid {
+        bitset: keep("f29") && qlib::has_bitset_leaf(schema, q),
+        inter_count: keep("f30") && qlib::may_be_intersection(q),
+        union_fill: keep("f31") && qlib::has_union(q),
+        union_danger: keep("f32") && qlib::has_union_anywhere(q),
+        union_member: keep("f33") && qlib::union_has_danger_member(q),
+    }
+}
+
 #[derive(Clone, Copy, Default)]
 struct Avoid {
     bitset: bool,
@@ -326,7 +340,6 @@ fn stripes(a: &Args, tracer: &Tracer) {
     let f = std::fs::File::open(a.get("in", "")).expect("open --in");
     let mut idx: HashMap<(u32, u32), (Index, Schema)> = HashMap::new();
     let mut rich: HashMap<String, (Index, Schema)> = HashMap::new();
-    let avoid = !a.flag("no-avoid");
     tracer.emit(json!({"ev":"reset","mode":"cases"}));
     for line in std::io::BufReader::new(f).lines() {
         let line = line.unwrap();
@@ -357,10 +370,7 @@ fn stripes(a: &Args, tracer: &Tracer) {
         }
         match weight_of(index, schema, &c["q"], scoring) {
             Ok((w, searcher)) => {
-                let av = Avoid { bitset: avoid && qlib::has_bitset_leaf(schema, &c["q"]), union_fill: avoid && qlib::has_union(&c["q"]),
-                                 union_danger: avoid && qlib::has_union_anywhere(&c["q"]),
-                                 union_member: avoid && qlib::union_has_danger_member(&c["q"]),
-                                 inter_count: avoid && qlib::may_be_intersection(&c["q"]) };
+                let av = steer(a, schema, &c["q"]);
                 for (ord, sr) in searcher.segment_readers().iter().enumerate() {
                     run_scorer_case(tracer, w.as_ref(), sr, ord, &c["q"], scoring, &progs, &extra, av);
                 }
@@ -465,7 +475,6 @@ fn random(a: &Args, tracer: &Tracer) {
     let maxlen = a.num("maxlen", 25) as usize;
     let depth = a.num("depth", 2) as u32;
     let (index, schema, info, mut rng) = rich_index(seed, ndocs, a.flag("bigseg"));
-    let avoid = !a.flag("no-avoid");
     tracer.emit(json!({"ev":"reset","mode":"random","index":info}));
     let opts = qlib::GenOpts::all(depth);
     let mut qi = 0;
@@ -489,7 +498,7 @@ fn random(a: &Args, tracer: &Tracer) {
             };
             let progs: Vec<Vec<Value>> = (0..nprogs).map(|_| gen_prog(&mut rng, &seq, sr.max_doc(), maxlen, !a.flag("stop-at-count"))).collect();
             run_scorer_case(tracer, w.as_ref(), sr, ord, &q, scoring, &progs, &json!({"qi":qi}),
-                            Avoid { bitset: avoid && qlib::has_bitset_leaf(&schema, &q), union_fill: avoid && qlib::has_union(&q), union_danger: avoid && qlib::has_union_anywhere(&q), union_member: avoid && qlib::union_has_danger_member(&q), inter_count: avoid && qlib::may_be_intersection(&q) });
+                            steer(a, &schema, &q));
         }
     }
 }
